@@ -993,6 +993,15 @@ def _loop_exit_divisor(ctx, f, node, D, S):
             if fr:
                 cap_of_booking = fr['cap']
     if cap_of_booking is None:
+        loop_conds = cfg.conditions(cfg.node_of(loop)) if cfg.node_of(loop) is not None else []
+        own = [c_ for c_ in cfg.conditions(rnode) if not any(c_[0] is l_[0] for l_ in loop_conds) and c_[0] is not loop.test]
+        for t_, p_ in own:
+            s3 = sched.sign_test(ex.expand(t_, cfg.node_containing(t_), stop=selfref), p_)
+            if s3 and s3[1] != '>' and parse_free(s3[0], S['balance']):
+                return f"the booking is guarded by `free {s3[1]} 0`, which does not exclude a day without capacity"
+        if own or (rnode is not None and rnode.ast is not None and eval_conditions(rnode.ast, c)):
+            # the booking is conditional, but not on a test the rule can read as `capacity - reserved > 0`
+            return ('undecided', f"the booking is guarded by `{src(own[0][0])[:60] if own else '..'}`, which the rule cannot read as free > 0")
         return "the booking is not guarded by free > 0"
     Dx = ex.expand(D, cn, stop=selfref)
     capD = parse_cap(Dx)
